@@ -94,6 +94,7 @@ Definition tree_same (a b : tree) : bool := tree_sub a b && tree_sub b a.
 Record step := mk_step {
   st_tree : tree;                    (* the tree checked out in this step *)
   st_res : result;                   (* what check_out returned *)
+  st_trace : list (N * path);        (* the real file-system calls of the checkout, in order *)
   st_disk : fs;                      (* listing afterwards *)
   st_states : list (path * bool);    (* file states afterwards *)
 }.
@@ -152,6 +153,7 @@ Fixpoint run_steps (f : fs) (w : wc) (steps : list step) : bool :=
       let '(o, w') := check_out rn f w (st_tree s) in
       result_eqb (o_res o) (st_res s) && fs_eqb (o_fs o) (st_disk s)
       && forallb ev_safe (o_trace o)
+      && list_eqb (pair_eqb N.eqb path_eqb) (visible_trace (o_trace o)) (st_trace s)
       && states_eqb (o_states o) (st_states s)
       && run_steps (o_fs o) w' r
   end.
